@@ -24,6 +24,7 @@ import (
 	"net/netip"
 	"os"
 	"path/filepath"
+	"runtime/debug"
 	"sort"
 	"strings"
 	"testing"
@@ -173,6 +174,10 @@ type c12Tok struct {
 	// logoutAborted: the client of its logout request had gone away (request
 	// context cancelled) before the handler ran.
 	logoutAborted bool
+	// damaged: a later start found sessions.db damaged; damageAfterLogout is
+	// the kind of damage of the first such start after its logout.
+	damaged           bool
+	damageAfterLogout string
 	// maybeOut: it was a valid token of an accepted logout request that was
 	// not necessarily the one ended.
 	maybeOut bool
@@ -207,6 +212,9 @@ type c12Hist struct {
 	force int
 	// clientGone makes doReq send its request with a cancelled context.
 	clientGone bool
+	// damage is the kind of damage done to sessions.db before the last start
+	// ("" = none).
+	damage string
 }
 
 func (h *c12Hist) now() int64 { return time.Now().Unix() - c12Epoch.Unix() }
@@ -236,6 +244,15 @@ func (h *c12Hist) witness(extra map[string]any) map[string]any {
 }
 
 func (h *c12Hist) violate(key, what string, extra map[string]any) {
+	if strings.HasPrefix(key, "panic:") && h.damage != "" {
+		// The program crashed while working on a database that was damaged
+		// before it started: not a statement about sessions; the history
+		// ends.  The Auth object is abandoned, not closed.
+		h.rep.Event("crashes_after_a_start_on_a_damaged_db:" + h.damage)
+		h.auth = nil
+		h.dead = true
+		return
+	}
 	h.rep.Violate(key, what, h.witness(extra))
 	h.dead = true
 }
@@ -331,6 +348,13 @@ func (h *c12Hist) start() bool {
 	rl := newAuthRateLimiter(time.Duration(h.cfg.BlockS)*time.Second, uint(h.cfg.Max))
 	h.auth = InitAuth(h.file, h.web, uint32(h.cfg.TTLS), rl, h.trusted)
 	if h.auth == nil {
+		if h.damage != "" {
+			// The program refuses to start on a damaged file: the history
+			// ends here.
+			h.rep.Event("starts_refused_on_a_damaged_db:" + h.damage)
+			h.dead = true
+			return false
+		}
 		h.rep.Inconcl("InitAuth returned nil on " + h.file)
 		h.dead = true
 		return false
@@ -903,6 +927,13 @@ func (h *c12Hist) pickTok() int {
 func (h *c12Hist) tokState(k *c12Tok, t int64) (state, zone string) {
 	ttl := h.cfg.TTLS
 	switch {
+	case k.loggedOut && k.logoutFault == "":
+		// A logout that was processed with a writable database ends the
+		// token for this process and every later one.
+		return "reject:logged-out", ""
+	case k.damaged && t <= k.lastOK+ttl:
+		// What survives a start on a damaged sessions.db is not specified.
+		return "either", "live_token_after_start_on_a_damaged_db"
 	case k.faultedRestart && t <= k.lastOK+ttl:
 		// What a restart restores from a db that could not be written is
 		// not specified.
@@ -1141,6 +1172,10 @@ func (h *c12Hist) cookieReq(logout bool) {
 		if k.logoutFault != "" {
 			h.rep.Event("session_reject_checks_after_logout_during_storage_fault")
 			sfx += ":storage-fault-" + k.logoutFault
+		}
+		if k.damageAfterLogout != "" {
+			h.rep.Event("session_reject_checks_after_logout_and_start_on_a_damaged_db")
+			sfx += ":after-start-on-damaged-db"
 		}
 		if k.logoutAborted {
 			h.rep.Event("session_reject_checks_after_client_aborted_logout")
@@ -1404,19 +1439,110 @@ func (h *c12Hist) injectFault() {
 	}
 }
 
-func (h *c12Hist) restart() {
-	h.canon = append(h.canon, "R")
-	st := h.step("restart", "", "")
+func (h *c12Hist) restart() { h.restartDamaged("") }
+
+var c12Damages = []string{"meta-pages-zeroed", "meta-pages-zeroed", "meta-pages-garbage", "truncated-to-0",
+	"truncated-to-half", "truncated-to-a-page-boundary", "garbage-appended"}
+
+// c12Damage damages the closed sessions.db between two runs.
+func c12Damage(file, kind string, rng *rand.Rand) (err error) {
+	ps := int64(os.Getpagesize())
+	fi, err := os.Stat(file)
+	if err != nil {
+		return err
+	}
+	junk := func(n int64) []byte {
+		b := make([]byte, n)
+		for i := range b {
+			b[i] = byte(rng.Intn(256))
+		}
+		return b
+	}
+	switch kind {
+	case "meta-pages-zeroed", "meta-pages-garbage":
+		f, oerr := os.OpenFile(file, os.O_WRONLY, 0)
+		if oerr != nil {
+			return oerr
+		}
+		defer f.Close()
+		b := make([]byte, 2*ps)
+		if kind == "meta-pages-garbage" {
+			b = junk(2 * ps)
+		}
+		_, err = f.WriteAt(b, 0)
+	case "truncated-to-0":
+		err = os.Truncate(file, 0)
+	case "truncated-to-half":
+		err = os.Truncate(file, fi.Size()/2)
+	case "truncated-to-a-page-boundary":
+		n := fi.Size() / ps
+		if n < 2 {
+			n = 2
+		}
+		err = os.Truncate(file, ps*(1+rng.Int63n(n-1)))
+	case "garbage-appended":
+		f, oerr := os.OpenFile(file, os.O_WRONLY|os.O_APPEND, 0)
+		if oerr != nil {
+			return oerr
+		}
+		defer f.Close()
+		_, err = f.Write(junk(1 + rng.Int63n(2*ps)))
+	}
+	return err
+}
+
+// restartDamaged stops the program, optionally damages sessions.db, and
+// starts it again.  On a damaged file the start may fail (the history ends,
+// that is fine); if it succeeds, tokens logged out in an earlier run and
+// never issued ones must be refused, whatever happened to the live ones.
+func (h *c12Hist) restartDamaged(damage string) {
+	h.canon = append(h.canon, "R"+damage)
+	st := h.step("restart", "", damage)
+	if damage != "" {
+		st.Detail = "sessions.db damaged between the runs: " + damage
+	}
 	var pan any
+	var derr error
 	func() {
 		defer func() { pan = recover() }()
 		h.auth.Close()
+		if damage != "" {
+			derr = c12Damage(h.file, damage, h.rng)
+		}
+		h.damage = damage
 		h.start()
 	}()
+	if damage != "" {
+		h.rep.Event("starts_on_a_damaged_db:" + damage)
+		if derr != nil {
+			st.Detail += fmt.Sprintf(" (damaging failed: %v)", derr)
+		}
+	}
 	if pan != nil {
 		st.Obs = fmt.Sprintf("panic: %v", pan)
+		if damage != "" {
+			// The program crashed on the damaged file instead of starting.
+			h.rep.Event("starts_crashed_on_a_damaged_db:" + damage)
+			h.auth = nil
+			h.dead = true
+			return
+		}
 		h.violate("panic:restart", fmt.Sprintf("Close/InitAuth panicked: %v", pan), nil)
 		return
+	}
+	if h.dead {
+		st.Obs = "the program refused to start"
+		return
+	}
+	if damage != "" {
+		st.Obs = "started"
+		h.rep.Event("starts_succeeded_on_a_damaged_db:" + damage)
+		for _, k := range h.toks {
+			k.damaged = true
+			if k.loggedOut && k.damageAfterLogout == "" {
+				k.damageAfterLogout = damage
+			}
+		}
 	}
 	h.rep.Event("restarts")
 	for _, a := range h.addrs {
@@ -1432,6 +1558,40 @@ func (h *c12Hist) restart() {
 			k.restartsSinceLogout++
 		}
 	}
+}
+
+// damageScenario: a token lives through a clean restart, is logged out in the
+// next run, the database is damaged between that run and the next, and the
+// token is presented to whatever starts then.
+func (h *c12Hist) damageScenario() {
+	var live []int
+	for i, k := range h.toks {
+		if st, _ := h.tokState(k, h.now()); st == "accept" {
+			live = append(live, i)
+		}
+	}
+	if len(live) == 0 {
+		h.restartDamaged(c12Damages[h.rng.Intn(len(c12Damages))])
+		return
+	}
+	ti := live[h.rng.Intn(len(live))]
+	h.restart()
+	if h.dead {
+		return
+	}
+	h.force = ti
+	h.cookieReq(true)
+	h.force = -1
+	if h.dead {
+		return
+	}
+	h.restartDamaged(c12Damages[h.rng.Intn(len(c12Damages))])
+	if h.dead {
+		return
+	}
+	h.force = ti
+	h.cookieReq(false)
+	h.force = -1
 }
 
 // edges returns the instants on which no step may fall.
@@ -1534,6 +1694,10 @@ func (h *c12Hist) run() {
 		h.dead = true
 		return
 	}
+	// A read of the memory-mapped sessions.db beyond a truncated file must
+	// surface as a panic of the call (recovered and counted), not kill the
+	// monitor.
+	defer debug.SetPanicOnFault(debug.SetPanicOnFault(true))
 	if h.cfg.StartOff > 0 {
 		time.Sleep(time.Duration(h.cfg.StartOff) * time.Second)
 	}
@@ -1542,7 +1706,10 @@ func (h *c12Hist) run() {
 	}
 	defer func() {
 		if h.auth != nil {
-			h.auth.Close()
+			func() {
+				defer func() { _ = recover() }()
+				h.auth.Close()
+			}()
 		}
 	}()
 	if h.cfg.Family == "many-addresses" {
@@ -1569,9 +1736,19 @@ func (h *c12Hist) run() {
 		case r < 95:
 			h.basicReq(h.cur)
 		case r < 98:
-			h.restart()
-		default:
+			if h.rng.Intn(4) == 0 {
+				h.restartDamaged(c12Damages[h.rng.Intn(len(c12Damages))])
+			} else {
+				h.restart()
+			}
+		case r < 99:
 			h.injectFault()
+		default:
+			if h.rng.Intn(2) == 0 {
+				h.injectFault()
+			} else {
+				h.damageScenario()
+			}
 		}
 	}
 }
@@ -1798,6 +1975,8 @@ func TestVerifC12(t *testing.T) {
 		"session_reject_checks_after_logout_and_restart":                verifkit.Pick(5, 100),
 		"unknown_token_checks":                                          verifkit.Pick(100, 2000),
 		"restarts":                                                      verifkit.Pick(100, 2000),
+		"session_reject_checks_after_logout_and_start_on_a_damaged_db":  verifkit.Pick(30, 600),
+		"starts_refused_on_a_damaged_db:meta-pages-zeroed":              verifkit.Pick(30, 600),
 		"sweep_attempts_in_the_last_second_of_a_block":                  verifkit.Pick(200, 2000),
 		"sweep_attempts_in_the_last_millisecond_of_a_block":             verifkit.Pick(50, 500),
 		"session_reject_checks_after_client_aborted_logout_and_restart": verifkit.Pick(30, 600),
